@@ -71,7 +71,8 @@ ComposeProg(j) ==
         parts |-> [m \in 1..ComposeSize |-> <<ps[m].kind, ps[m].variant>>],
         kinds |-> {ps[m].kind : m \in 1..ComposeSize} \cup UNION {ps[m].uses : m \in 1..ComposeSize} \cup BaseKinds,
         items |-> Flat([m \in 1..ComposeSize |-> ps[m].items]),
-        expect |-> Flat([m \in 1..ComposeSize |-> ps[m].expect])]
+        expect |-> IF \E m \in 1..ComposeSize : ps[m].kind \in NoRunKinds THEN <<>>
+                   ELSE Flat([m \in 1..ComposeSize |-> ps[m].expect])]
 
 \* ---- the enumeration as a state machine -------------------------------------------
 Init == st = [m |-> "root"]
